@@ -188,6 +188,9 @@ let gname = function
   | GEmptyTensor -> "empty-tensor" | GSliceOfTransposed -> "slice-of-transposed"
   | GColMajor -> "col-major" | GPendingTranspose -> "pending-transpose" | GView -> "view"
   | GVectorAxes -> "vector-axes" | GBadAxes -> "bad-axes" | GFlagUnsound -> "flag-unsound"
+  | GLenOne -> "len-one" | GDestRefused -> "dest-refused" | GDestAlias -> "dest-alias"
+  | GOrderMix -> "order-mix" | GScalarLeftView -> "scalar-left-view" | GShapeSoft -> "shape-soft"
+  | GModeUnsupported -> "mode-unsupported" | GScalarShaped -> "scalar-shaped"
   | GOther -> "other"
 
 let operand_ids (o : string) : int list =
